@@ -91,25 +91,37 @@ Definition refusals_before (pre : trace) (x : opx) : nat :=
 
 Definition is_empty_list {A} (l : list A) : bool := match l with [] => true | _ => false end.
 
+(* no event reaches any client unless the checksum matches under the claimed backend's
+   secret, and then only the clients of that backend *)
+Definition ok_delivered (cfg : config) (x : opx) (o : obs) : bool :=
+  match delivered o with
+  | [] => true
+  | [i] => existsb (N.eqb i) (accept_set cfg x)
+  | _ => false
+  end.
+
+(* only a POST is ever accepted *)
+Definition ok_post (x : opx) (o : obs) : bool :=
+  q_post (x_req x) || is_empty_list (delivered o).
+
+(* 429 only as the throttle of C17: after ten refused requests of this address; silent *)
+Definition ok_429 (pre : trace) (x : opx) (o : obs) : bool :=
+  negb (N.eqb (status o) 429) || (is_empty_list (delivered o) && (spec_attempts <=? refusals_before pre x)%nat).
+
+(* a well-formed POST is answered 403 exactly when the checksum does not match *)
+Definition ok_iff (cfg : config) (x : opx) (o : obs) : bool :=
+  negb (wellformed x) || N.eqb (status o) 429 ||
+  Bool.eqb (N.eqb (status o) 403) (is_empty_list (accept_set cfg x)).
+
+(* "any change to body, random ... yields 403": a checksum that was accepted once is not
+   accepted with another (random, body) *)
+Definition ok_tamper (pre : trace) (x : opx) (o : obs) : bool :=
+  negb (accepted (x, o)) ||
+  forallb (fun xo => negb (accepted xo) || negb (String.eqb (q_chk (x_req (fst xo))) (q_chk (x_req x)))
+                     || same_pair (fst xo) x) pre.
+
 Definition step_ok (cfg : config) (pre : trace) (x : opx) (o : obs) : bool :=
-  let acc := accept_set cfg x in
-  (* no event reaches any client unless the checksum matches under the claimed backend's secret,
-     and then only the clients of that backend *)
-  (match delivered o with
-   | [] => true
-   | [i] => existsb (N.eqb i) acc
-   | _ => false
-   end)
-  && (q_post (x_req x) || is_empty_list (delivered o))
-  (* 429 only as the throttle of C17: after ten refused requests of this address; silent *)
-  && (negb (N.eqb (status o) 429) || (is_empty_list (delivered o) && (spec_attempts <=? refusals_before pre x)%nat))
-  (* a well-formed POST is answered 403 exactly when the checksum does not match *)
-  && (negb (wellformed x) || N.eqb (status o) 429 || Bool.eqb (N.eqb (status o) 403) (is_empty_list acc))
-  (* "any change to body, random ... yields 403": a checksum that was accepted once is not
-     accepted with another (random, body) *)
-  && (negb (accepted (x, o)) ||
-      forallb (fun xo => negb (accepted xo) || negb (String.eqb (q_chk (x_req (fst xo))) (q_chk (x_req x)))
-                         || same_pair (fst xo) x) pre).
+  ok_delivered cfg x o && ok_post x o && ok_429 pre x o && ok_iff cfg x o && ok_tamper pre x o.
 
 Fixpoint P_from (cfg : config) (pre : trace) (tr : trace) : bool :=
   match tr with
